@@ -46,4 +46,23 @@ def pairSlotVal (I : String → Nat → Rat → Rat) (scale : Bool) : Slot → R
 /-- one line `"% 20.16e"` holding one number -/
 def numLine (v : Rat) : String × List (Option String × Rat) := ("% 20.16e\n", [(none, v)])
 
+/-! ### meaning of a whole TABEAM file of the model (used by the `C05_code_write*` / `C04_code_tabeam_fs*` theorems) -/
+
+/-- one record of a TABEAM block: up to four `%f` fields; `what` names the callable's method (`"energy"` for pair potentials, `"value"` otherwise) -/
+def tabeamRow (I : String → Nat → Rat → Rat) (what : String) (g : List Slot) : String × List (Option String × Rat) :=
+  (" ".intercalate (g.map fun _ => "%f") ++ "\n", g.map fun s => (none, slotVal I what s))
+
+/-- a block of the model as the lines it stands for: `kw <species…> n 0.0 hi`, then its records -/
+def tblockSem (I : String → Nat → Rat → Rat) (b : TBlock) : List (String × List (Option String × Rat)) :=
+  (b.kw ++ " " ++ String.join (b.species.map fun _ => "%s ") ++ "%d 0.0 %f\n",
+    (b.species.map fun sp => (some sp, (0 : Rat))) ++ [(none, (b.n : Rat)), (none, b.hi)])
+  :: b.rows.map (tabeamRow I (if b.kw == "pair" then "energy" else "value"))
+
+/-- the hundred blanks `_writeTitle` appends to the title -/
+def titlePad : String := String.ofList (List.replicate 100 ' ')
+
+/-- a TABEAM file of the model as the lines it stands for: title line, declared number of functions, then the blocks in order -/
+def tabeamSem (I : String → Nat → Rat → Rat) (title : String) (t : TabeamFile) : List (String × List (Option String × Rat)) :=
+  [("%s%s\n", [(some title, 0), (some titlePad, 0)]), ("%d\n", [(none, (t.declared : Rat))])] ++ t.blocks.flatMap (tblockSem I)
+
 end Atsim.TokSem
